@@ -92,8 +92,10 @@ def replay(chk, nd, seed):
 
 def trace_validate(chk, name, trace_path, what):
     """impl -> spec: TLC explains the recorded trace with Trace_Conn or rejects it."""
-    r = tlc("Trace_Conn", os.path.join(SPEC, "Trace_Conn.cfg"), name, workers=1, env={"TRACE": trace_path},
-            timeout=1800, trace_mode=True)
+    env = {"TRACE": trace_path}
+    if chk.tier == "thorough":
+        env["INV_EVERY"] = "8"      # large traces: invariants at every 8th event, at every session end and at the end
+    r = tlc("Trace_Conn", os.path.join(SPEC, "Trace_Conn.cfg"), name, workers=1, env=env, timeout=3000, trace_mode=True)
     chk.add_tlc(name, r)
     nev = sum(1 for _ in open(trace_path))
     chk.evaluations += nev
